@@ -21,6 +21,7 @@ import (
 	"verif/checks/c15"
 	"verif/checks/c16"
 	"verif/checks/c17"
+	"verif/checks/c19"
 	"verif/engine/report"
 )
 
@@ -45,6 +46,7 @@ var checks = map[string]check{
 	"C15": {"exploration", c15.Run, c15.Replay},
 	"C16": {"exploration", c16.Run, c16.Replay},
 	"C17": {"exploration", c17.Run, c17.Replay},
+	"C19": {"exploration", c19.Run, c19.Replay},
 }
 
 func main() {
